@@ -47,8 +47,7 @@ Proof.
   - split; [exact A |]. intros j Hj. apply memk_in in E. rewrite updn_neq; [apply B; exact Hj | intro; subst; tauto].
   - assert (N : ~ In k (keys s)) by (intro H; apply memk_in in H; congruence).
     split.
-    + apply NoDup_app_remove_l with (l := []). cbn. 
-      clear B E. induction (keys s) as [|a l IH]; cbn; [constructor; [intros [] | constructor] |].
+    + clear B E. induction (keys s) as [|a l IH]; cbn; [constructor; [intros [] | constructor] |].
       inversion A; subst. constructor.
       * rewrite in_app_iff. cbn. intros [H|[H|[]]]; [tauto | subst; apply N; left; reflexivity].
       * apply IH; [assumption | intro H; apply N; right; exact H].
@@ -79,7 +78,7 @@ Proof.
                cnt x (stream_slots s) + cnt x (sslots v))%nat); [| lia].
   unfold stream_slots. rewrite !cnt_flat_map. cbn [set_stream keys streams].
   pose proof (fold_cnt_update x (fun j => sslots (updn (streams s) k v j)) (fun j => sslots (streams s j)) k (keys s) A) as F.
-  specialize (F ltac:(intros j Hj; rewrite updn_neq by exact Hj; reflexivity)). cbn beta in F. rewrite updn_eq in F.
+  specialize (F ltac:(intros j Hj; cbn beta; rewrite updn_neq by exact Hj; reflexivity)). cbn beta in F. rewrite updn_eq in F.
   destruct (memk k (keys s)) eqn:E.
   - lia.
   - assert (N : ~ In k (keys s)) by (intro H; apply memk_in in H; congruence).
@@ -101,6 +100,8 @@ Proof. unfold W. cbn [set_free_ext free ext leaked q_srv q_cli]. unfold stream_s
 Lemma W_set_queue x t q s :
   (W x (set_queue t q s) + cnt x (qslots (queue_to t s)) = W x s + cnt x (qslots q))%nat.
 Proof. unfold W, queue_to. cbn [set_queue free ext leaked q_srv q_cli]. unfold stream_slots. cbn [set_queue keys streams]. destruct t; lia. Qed.
+
+Global Opaque W.
 
 Lemma ko_frame s s' : keys s' = keys s -> streams s' = streams s -> KeysOK s -> KeysOK s'.
 Proof. intros A B [C D]. unfold KeysOK. rewrite A, B. split; assumption. Qed.
@@ -138,21 +139,477 @@ Proof.
 Qed.
 
 (* ---------- delivery ---------- *)
+Lemma pslots_app a b : pslots (a ++ b) = pslots a ++ pslots b.
+Proof. unfold pslots. apply flat_map_app. Qed.
+
+Ltac use_set_stream K :=
+  match goal with
+  | |- context [W ?x (set_stream ?k ?nv ?s)] =>
+    let H := fresh "HW" in let T := fresh "T" in
+    pose proof (W_set_stream x k nv s K) as H; set (T := W x (set_stream k nv s)) in *; clearbody T
+  end.
+
 Lemma deliver_data_W x e sid p s :
   KeysOK s -> KeysOK (deliver_data e sid p s) /\ W x (deliver_data e sid p s) = (W x s + cnt x (pslots [p]))%nat.
 Proof.
   intro K. unfold deliver_data. set (k := key e sid). set (v := streams s k).
   destruct (alive v) eqn:Ea; [| destruct e].
-  - split; [apply ko_set_stream; exact K |].
-    match goal with |- W x (set_stream k ?nv s) = _ => pose proof (W_set_stream x k nv s K) as H end.
-    fold v in H. unfold sslots in *. cbn [sendb recvb pinned pend] in *. unfold pslots in *. rewrite flat_map_app in H.
-    rewrite !cnt_app in *. lia.
-  - split; [apply ko_set_stream; exact K |].
-    match goal with |- W x (set_stream k ?nv s) = _ => pose proof (W_set_stream x k nv s K) as H end.
-    fold v in H.
-    (* the dead stream object holds nothing besides (possibly) a send buffer, which the key keeps *)
-    assert (Hd : rslots (recvb v) = [] /\ pinned v = [] /\ pslots (pend v) = []).
-    { admit. }
-    admit.
+  - split; [apply ko_set_stream; exact K |]. use_set_stream K. fold v in HW.
+    unfold sslots in HW. cbn [sendb recvb pinned pend] in HW. rewrite pslots_app, !cnt_app in HW. lia.
+  - split; [apply ko_set_stream; exact K |]. use_set_stream K. fold v in HW.
+    unfold sslots in HW. cbn [sendb recvb pinned pend] in HW. rewrite pslots_app, !cnt_app in HW. lia.
   - split; [eapply ko_frame; [.. | exact K]; reflexivity |]. apply W_add_free.
-Abort.
+Qed.
+
+Lemma deliver_close_W x e sid s :
+  KeysOK s -> KeysOK (deliver_close e sid s) /\ W x (deliver_close e sid s) = W x s.
+Proof.
+  intro K. unfold deliver_close. set (k := key e sid). set (v := streams s k).
+  destruct (alive v) eqn:Ea; [| split; [exact K | reflexivity]].
+  split; [apply ko_set_stream; exact K |]. use_set_stream K. fold v in HW.
+  unfold sslots in HW. cbn [sendb recvb pinned pend] in HW. lia.
+Qed.
+
+Lemma deliver_W x e s q :
+  KeysOK s -> KeysOK (deliver e s q) /\ W x (deliver e s q) = (W x s + cnt x (map fst (q_chain q)))%nat.
+Proof.
+  intro K. unfold deliver. destruct (q_closed q).
+  - destruct (deliver_close_W x e (q_sid q) s K) as [K1 E]. split; [eapply ko_frame; [.. | exact K1]; reflexivity |].
+    rewrite W_add_free, E. reflexivity.
+  - destruct (deliver_data_W x e (q_sid q) (PShm (q_chain q)) s K) as [K1 E]. split; [exact K1 |].
+    rewrite E. unfold pslots. cbn [flat_map]. rewrite app_nil_r. reflexivity.
+Qed.
+
+Lemma fold_deliver_W x e q : forall s,
+  KeysOK s -> KeysOK (fold_left (deliver e) q s) /\ W x (fold_left (deliver e) q s) = (W x s + cnt x (qslots q))%nat.
+Proof.
+  induction q as [|a q IH]; intros s K; cbn [fold_left].
+  - split; [exact K |]. cbn. lia.
+  - destruct (deliver_W x e s a K) as [K1 E1]. destruct (IH _ K1) as [K2 E2]. split; [exact K2 |].
+    rewrite E2, E1. unfold qslots. cbn [flat_map]. rewrite cnt_app. lia.
+Qed.
+
+Lemma do_poll_W x e s : KeysOK s -> KeysOK (do_poll e s) /\ W x (do_poll e s) = W x s.
+Proof.
+  intro K. unfold do_poll.
+  assert (K0 : KeysOK (set_queue e [] s)) by (eapply ko_frame; [.. | exact K]; reflexivity).
+  destruct (fold_deliver_W x e (queue_to e s) _ K0) as [K1 E]. split; [exact K1 |].
+  rewrite E. pose proof (W_set_queue x e [] s) as Q. cbn in Q. lia.
+Qed.
+
+(* ---------- reading ---------- *)
+Lemma rslots_app a b : rslots (a ++ b) = rslots a ++ rslots b.
+Proof. unfold rslots. apply flat_map_app. Qed.
+
+Lemma cnt_filter_split x (f : Z * Z -> bool) c :
+  (cnt x (map fst (filter f c)) + cnt x (map fst (filter (fun y => negb (f y)) c)) = cnt x (map fst c))%nat.
+Proof.
+  induction c as [|a c IH]; cbn [filter map]; [reflexivity |].
+  destruct (f a); cbn [negb map]; unfold cnt in *; cbn [count_occ]; destruct (Z.eq_dec (fst a) x); lia.
+Qed.
+
+Lemma rslots_map_some c :
+  rslots (map (fun xb : Z * Z => {| rs_slot := Some (fst xb); rs_bytes := snd xb |}) c) = map fst c.
+Proof. induction c as [|a c IH]; cbn; [reflexivity | f_equal; exact IH]. Qed.
+
+Lemma move_entry_cnt x p r fr fb :
+  let '(r', fr', _) := move_entry p (r, fr, fb) in
+  (cnt x (rslots r') + cnt x fr' = cnt x (rslots r) + cnt x fr + cnt x (pslots [p]))%nat.
+Proof.
+  destruct p as [c|b]; cbn [move_entry].
+  - rewrite rslots_app, rslots_map_some, !cnt_app. unfold pslots. cbn [flat_map]. rewrite app_nil_r.
+    pose proof (cnt_filter_split x (fun xb => 0 <? snd xb) c). lia.
+  - rewrite rslots_app, cnt_app. cbn. lia.
+Qed.
+
+Lemma move_fold_cnt x l : forall r fr fb,
+  let '(r', fr', _) := fold_left (fun acc p => move_entry p acc) l (r, fr, fb) in
+  (cnt x (rslots r') + cnt x fr' = cnt x (rslots r) + cnt x fr + cnt x (pslots l))%nat.
+Proof.
+  induction l as [|p l IH]; intros r fr fb; cbn [fold_left].
+  - cbn. lia.
+  - pose proof (move_entry_cnt x p r fr fb) as H1.
+    destruct (move_entry p (r, fr, fb)) as [[r1 fr1] fb1].
+    specialize (IH r1 fr1 fb1). destruct (fold_left _ l (r1, fr1, fb1)) as [[r2 fr2] fb2].
+    change (p :: l) with ([p] ++ l). rewrite pslots_app, cnt_app. lia.
+Qed.
+
+Definition rq (x : Z) (r : rstate) : nat := (cnt x (rslots (r_buf r)) + cnt x (r_pin r) + cnt x (r_free r))%nat.
+
+Lemma read_next_rq x r : rq x (read_next r) = rq x r.
+Proof.
+  unfold read_next. destruct (r_buf r) as [|a t] eqn:E; [reflexivity |].
+  destruct (rs_slot a) as [y|] eqn:Es; [destruct (r_cpin r) |]; unfold rq; cbn [r_buf r_pin r_free]; rewrite E;
+    unfold rslots; cbn [flat_map]; rewrite Es, ?cnt_app; cbn [app]; unfold cnt; cbn [count_occ]; try destruct (Z.eq_dec y x); lia.
+Qed.
+Lemma take_front_rq x n r : rq x (take_front n r) = rq x r.
+Proof. unfold take_front. destruct (r_buf r) as [|a t] eqn:E; [reflexivity |]. unfold rq. cbn [r_buf r_pin r_free]. rewrite E. reflexivity. Qed.
+Lemma set_cpin_rq x b r : rq x (set_cpin b r) = rq x r.
+Proof. reflexivity. Qed.
+Lemma consume_rq x fuel : forall k r, rq x (consume fuel k r) = rq x r.
+Proof.
+  induction fuel as [|f IH]; intros k r; cbn [consume]; [reflexivity |].
+  destruct (k <=? front_bytes r); [apply take_front_rq |]. rewrite IH, read_next_rq, take_front_rq. reflexivity.
+Qed.
+Lemma do_read_kind_rq x kind k r : rq x (do_read_kind kind k r) = rq x r.
+Proof.
+  destruct kind; cbn [do_read_kind].
+  - destruct (front_bytes r =? 0).
+    + destruct (k <=? front_bytes (read_next r)); [rewrite take_front_rq, set_cpin_rq | rewrite consume_rq]; apply read_next_rq.
+    + destruct (k <=? front_bytes r); [rewrite take_front_rq, set_cpin_rq | rewrite consume_rq]; reflexivity.
+  - apply consume_rq.
+  - destruct (k <=? front_bytes r); reflexivity.
+Qed.
+
+Lemma do_read_W x e sid kind k s : KeysOK s -> KeysOK (do_read e sid kind k s) /\ W x (do_read e sid kind k s) = W x s.
+Proof.
+  intro K. unfold do_read. set (kk := key e sid). set (v := streams s kk).
+  destruct (alive v); cbn [negb]; [| split; [exact K | reflexivity]].
+  unfold move_all. pose proof (move_fold_cnt x (pend v) (recvb v) [] (infb v)) as HM.
+  destruct (fold_left _ (pend v) (recvb v, [], infb v)) as [[rb fr0] fb].
+  set (r0 := {| r_buf := rb; r_pin := pinned v; r_free := []; r_cpin := cpin v |}).
+  set (r1 := if (0 <? k) && (k <=? sumz (map rs_bytes rb)) then do_read_kind kind k r0 else r0).
+  assert (HR : rq x r1 = rq x r0) by (unfold r1; destruct (_ && _); [apply do_read_kind_rq | reflexivity]).
+  split; [eapply ko_frame; [.. | apply ko_set_stream; exact K]; reflexivity |].
+  rewrite W_add_free. use_set_stream K. fold v in HW.
+  unfold sslots in HW. cbn [sendb recvb pinned pend] in HW. unfold rq in HR. cbn [r0 r_buf r_pin r_free] in HR.
+  rewrite !cnt_app in *. cbn [pslots flat_map] in HW. rewrite cnt_nil in *. lia.
+Qed.
+
+(* ---------- the other labels ---------- *)
+Lemma map_fst_zip_pad l : forall sz, map fst (zip_pad l sz) = l.
+Proof. induction l as [|a l IH]; intros [|b r]; cbn; try reflexivity; f_equal; apply IH. Qed.
+
+Lemma cnt_firstn_skipn x n l : (cnt x (firstn n l) + cnt x (skipn n l) = cnt x l)%nat.
+Proof. rewrite <- cnt_app, firstn_skipn. reflexivity. Qed.
+
+Ltac ko := repeat first [ apply ko_set_stream | eapply ko_frame; [reflexivity | reflexivity |] ]; try assumption.
+
+Lemma W_enqueue x t el s s1 :
+  queue_to t s1 = queue_to t s ->
+  W x (set_queue t (queue_to t s ++ [el]) s1) = (W x s1 + cnt x (map fst (q_chain el)))%nat.
+Proof.
+  intro E. pose proof (W_set_queue x t (queue_to t s ++ [el]) s1) as Q. rewrite E in Q.
+  rewrite qslots_app, cnt_app in Q. unfold qslots at 3 in Q. cbn [flat_map] in Q. rewrite app_nil_r in Q. lia.
+Qed.
+
+Lemma do_flush_W x e sid sizes wpos s : KeysOK s -> KeysOK (do_flush e sid sizes wpos s) /\ W x (do_flush e sid sizes wpos s) = W x s.
+Proof.
+  intro K. unfold do_flush. set (k := key e sid). set (v := streams s k).
+  destruct (sumz sizes <=? 0); [split; [exact K | reflexivity] |].
+  destruct (is_open v); cbn [negb].
+  2:{ split; [ko |]. rewrite W_add_free. use_set_stream K. fold v in HW. unfold sslots in HW. cbn [with_send sendb recvb pinned pend] in HW.
+      rewrite !cnt_app in HW. cbn in HW. lia. }
+  destruct (sheap v || infb v).
+  - assert (K1 : KeysOK (add_free (sendb v) (set_stream k (with_send v true) s))) by ko.
+    destruct (deliver_data_W x (negb e) sid (PFb (sumz sizes)) _ K1) as [K2 E]. split; [exact K2 |].
+    rewrite E, W_add_free. use_set_stream K. fold v in HW. unfold sslots in HW. cbn [with_send sendb recvb pinned pend] in HW.
+    rewrite !cnt_app in HW. cbn in HW. cbn. lia.
+  - pose proof (cnt_firstn_skipn x (S wpos) (sendb v)) as FS.
+    destruct (Z.of_nat (length (queue_to (negb e) s)) >=? qcap s).
+    + split; [ko |]. rewrite !W_add_free. use_set_stream K. fold v in HW. unfold sslots in HW. cbn [with_send sendb recvb pinned pend] in HW.
+      rewrite !cnt_app in HW. cbn in HW. lia.
+    + split; [ko |]. rewrite W_enqueue by (destruct e; reflexivity). cbn [q_chain]. rewrite map_fst_zip_pad, W_add_free.
+      use_set_stream K. fold v in HW. unfold sslots in HW. cbn [with_send sendb recvb pinned pend] in HW.
+      rewrite !cnt_app in HW. cbn in HW. lia.
+Qed.
+
+Lemma do_release_W x e sid s : KeysOK s -> KeysOK (do_release e sid s) /\ W x (do_release e sid s) = W x s.
+Proof.
+  intro K. unfold do_release. set (k := key e sid). set (v := streams s k).
+  destruct (alive v); cbn [negb]; [| split; [exact K | reflexivity]].
+  destruct (recvb v) as [|a [|a' t]] eqn:Er; [| destruct (rs_bytes a =? 0) |];
+    (split; [ko |]); rewrite W_add_free; use_set_stream K; fold v in HW; unfold sslots in HW; cbn [sendb recvb pinned pend] in HW;
+    rewrite ?Er in HW; rewrite ?cnt_app in *; cbn in HW; cbn; lia.
+Qed.
+
+Lemma do_reuse_W x e sid s : KeysOK s -> KeysOK (do_reuse e sid s) /\ W x (do_reuse e sid s) = W x s.
+Proof.
+  intro K. unfold do_reuse. set (k := key e sid). set (v := streams s k).
+  destruct (is_open v && (sumz (map rs_bytes (recvb v)) =? 0) && match pend v with [] => true | _ => false end
+            && match sendb v with [] => true | _ => false end) eqn:Er; cbn [negb]; [| split; [exact K | reflexivity]].
+  apply andb_true_iff in Er. destruct Er as [Er Es]. apply andb_true_iff in Er. destruct Er as [_ Ep].
+  destruct (pend v) eqn:Epd; [| discriminate]. destruct (sendb v) eqn:Esd; [| discriminate].
+  destruct (recvb v) as [|a [|a' t]] eqn:Erb; [| destruct (rs_slot a) eqn:Ea |];
+    (split; [ko |]); rewrite W_add_free.
+  - use_set_stream K. fold v in HW. unfold sslots in HW. cbn [sendb recvb pinned pend] in HW.
+    rewrite ?Erb, ?Epd, ?Esd in HW. rewrite ?cnt_app in *. cbn in HW. lia.
+  - use_set_stream K. fold v in HW. unfold sslots in HW. cbn [sendb recvb pinned pend] in HW.
+    rewrite ?Erb, ?Epd, ?Esd in HW. rewrite ?cnt_app in *. unfold rslots in HW. cbn [flat_map] in HW. rewrite Ea in HW. cbn in HW. lia.
+  - use_set_stream K. fold v in HW. unfold sslots in HW. cbn [sendb recvb pinned pend] in HW.
+    rewrite ?Erb, ?Epd, ?Esd in HW. rewrite ?cnt_app in *. unfold rslots in HW. cbn [flat_map] in HW. rewrite Ea in HW. cbn in HW. lia.
+  - use_set_stream K. fold v in HW. unfold sslots in HW. cbn [sendb recvb pinned pend] in HW.
+    rewrite ?Erb, ?Epd, ?Esd in HW. rewrite ?cnt_app in *. cbn in HW. lia.
+Qed.
+
+Lemma do_close_W x e sid s : KeysOK s -> KeysOK (do_close e sid s) /\ W x (do_close e sid s) = W x s.
+Proof.
+  intro K. unfold do_close. set (k := key e sid). set (v := streams s k).
+  destruct (alive v); cbn [negb]; [| split; [exact K | reflexivity]].
+  set (nv := {| alive := false; half := half v; infb := infb v; sendb := []; sheap := false; recvb := []; cpin := false; pinned := []; pend := [] |}).
+  set (s2 := add_free (pslots (pend v) ++ rslots (recvb v) ++ sendb v) (set_stream k nv s)).
+  set (s3 := if fx s then add_free (pinned v) s2 else add_leaked (pinned v) s2).
+  assert (K3 : KeysOK s3) by (unfold s3, s2; destruct (fx s); ko).
+  assert (E3 : W x s3 = W x s).
+  { unfold s3, s2. destruct (fx s).
+    - rewrite !W_add_free. unfold nv. use_set_stream K. fold v in HW. unfold sslots in HW.
+      cbn [sendb recvb pinned pend] in HW. rewrite ?cnt_app in *. cbn in HW. lia.
+    - rewrite W_add_leaked, W_add_free. unfold nv. use_set_stream K. fold v in HW. unfold sslots in HW.
+      cbn [sendb recvb pinned pend] in HW. rewrite ?cnt_app in *. cbn in HW. lia. }
+  destruct (half v); [split; assumption |].
+  destruct (Z.of_nat (length (queue_to (negb e) s)) >=? qcap s).
+  - destruct (deliver_close_W x (negb e) sid s3 K3) as [K4 E4]. split; [exact K4 | lia].
+  - split; [ko |]. rewrite W_enqueue; [cbn; lia |]. unfold s3, s2. destruct (fx s); destruct e; reflexivity.
+Qed.
+
+Lemma do_open_W x sid s : KeysOK s -> KeysOK (do_open sid s) /\ W x (do_open sid s) = W x s.
+Proof.
+  intro K. unfold do_open. destruct (memk (key false sid) (keys s)) eqn:E; [split; [exact K | reflexivity] |].
+  split; [ko |]. use_set_stream K.
+  assert (N : ~ In (key false sid) (keys s)) by (intro H; apply memk_in in H; congruence).
+  rewrite (proj2 K _ N) in HW. cbn in HW. lia.
+Qed.
+
+(* ================= the invariant ================= *)
+Definition iota (n : nat) : list Z := map Z.of_nat (seq 0 n).
+Definition Inv (n : nat) (s : st) : Prop := KeysOK s /\ forall x, W x s = cnt x (iota n).
+
+Lemma iota_nodup n : NoDup (iota n).
+Proof. unfold iota. apply FinFun.Injective_map_NoDup; [intros a b H; apply Nat2Z.inj; exact H | apply seq_NoDup]. Qed.
+
+Lemma inv_perm n s : Inv n s -> Permutation (all_slots s) (iota n).
+Proof. intros [_ H]. apply (Permutation_count_occ Z.eq_dec). intro x. fold (cnt x (all_slots s)). rewrite cnt_all. apply H. Qed.
+
+Lemma nodup_app_l {A} (a b : list A) : NoDup (a ++ b) -> NoDup a.
+Proof.
+  induction a as [|x a IH]; cbn; intro H; [constructor |]. inversion H; subst.
+  constructor; [intro Hx; apply H2; apply in_app_iff; left; exact Hx | apply IH; assumption].
+Qed.
+Lemma nodup_app_r {A} (a b : list A) : NoDup (a ++ b) -> NoDup b.
+Proof. induction a as [|x a IH]; cbn; intro H; [exact H |]. inversion H; subst. apply IH; assumption. Qed.
+
+Lemma inv_nodup n s : Inv n s -> NoDup (free s) /\ NoDup (ext s).
+Proof.
+  intro I. pose proof (inv_perm n s I) as P. apply Permutation_sym in P.
+  pose proof (Permutation_NoDup P (iota_nodup n)) as N. unfold all_slots in N.
+  split; [apply nodup_app_l in N; exact N |].
+  apply nodup_app_r in N. apply nodup_app_l in N. exact N.
+Qed.
+
+Lemma step_W n s l s' : Inv n s -> step s l = Some s' -> KeysOK s' /\ forall x, W x s' = W x s.
+Proof.
+  intros I E. pose proof I as [K HW0]. destruct (inv_nodup n s I) as [Nf Ne]. destruct l; cbn [step] in E.
+  - inversion E; subst. split; [apply (do_open_W 0 sid s K) | intro x; apply (do_open_W x sid s K)].
+  - unfold do_write in E. set (k := key e sid) in *. set (v := streams s k) in *.
+    destruct (alive v); cbn [negb] in E; [| discriminate].
+    destruct (subsetb new (free s) && nodupb new) eqn:C; cbn [negb] in E; [| discriminate].
+    apply andb_true_iff in C. destruct C as [C1 C2]. inversion E; subst; clear E.
+    assert (K1 : KeysOK (set_free_ext (minus_list (free s) new) (ext s) s)) by (eapply ko_frame; [reflexivity | reflexivity | exact K]).
+    split; [apply ko_set_stream; exact K1 |]. intro x.
+    use_set_stream K1. pose proof (W_set_free_ext x (minus_list (free s) new) (ext s) s) as F.
+    pose proof (cnt_minus x (free s) new Nf C2 C1) as M.
+    change (streams (set_free_ext (minus_list (free s) new) (ext s) s) k) with v in HW.
+    unfold sslots in HW. cbn [sendb recvb pinned pend] in HW. rewrite !cnt_app in HW. lia.
+  - inversion E; subst. split; [apply (do_flush_W 0 e sid sizes wpos s K) | intro x; apply (do_flush_W x e sid sizes wpos s K)].
+  - inversion E; subst. split; [apply (do_poll_W 0 e s K) | intro x; apply (do_poll_W x e s K)].
+  - inversion E; subst. split; [apply (do_read_W 0 e sid kind k s K) | intro x; apply (do_read_W x e sid kind k s K)].
+  - inversion E; subst. split; [apply (do_release_W 0 e sid s K) | intro x; apply (do_release_W x e sid s K)].
+  - inversion E; subst. split; [apply (do_reuse_W 0 e sid s K) | intro x; apply (do_reuse_W x e sid s K)].
+  - inversion E; subst. split; [apply (do_close_W 0 e sid s K) | intro x; apply (do_close_W x e sid s K)].
+  - unfold do_ext_hold in E. destruct (subsetb new (free s) && nodupb new) eqn:C; [| discriminate].
+    apply andb_true_iff in C. destruct C as [C1 C2]. inversion E; subst; clear E.
+    split; [eapply ko_frame; [reflexivity | reflexivity | exact K] |]. intro x.
+    pose proof (W_set_free_ext x (minus_list (free s) new) (ext s ++ new) s) as F.
+    pose proof (cnt_minus x (free s) new Nf C2 C1) as M. rewrite cnt_app in F. lia.
+  - inversion E; subst. split; [eapply ko_frame; [reflexivity | reflexivity | exact K] |]. intro x.
+    pose proof (W_set_free_ext x (free s ++ ext s) [] s) as F. rewrite cnt_app in F. cbn in F. lia.
+  - unfold do_inject in E.
+    destruct (subsetb (map fst chain) (ext s) && nodupb (map fst chain)) eqn:C; cbn [negb] in E; [| discriminate].
+    apply andb_true_iff in C. destruct C as [C1 C2].
+    destruct (Z.of_nat (length (queue_to to_srv s)) >=? qcap s); [discriminate |]. inversion E; subst; clear E.
+    split; [eapply ko_frame; [reflexivity | reflexivity | exact K] |]. intro x.
+    rewrite W_enqueue by (destruct to_srv; reflexivity). cbn [q_chain].
+    pose proof (W_set_free_ext x (free s) (minus_list (ext s) (map fst chain)) s) as F.
+    pose proof (cnt_minus x (ext s) (map fst chain) Ne C2 C1) as M. lia.
+Qed.
+
+Lemma step'_inv n s l : Inv n s -> Inv n (step' s l).
+Proof.
+  intro I. unfold step'. destruct (step s l) as [s'|] eqn:E; [| exact I].
+  destruct (step_W n s l s' I E) as [K H]. split; [exact K |]. intro x. rewrite H. apply I.
+Qed.
+
+Lemma init_inv f n qc : Inv n (init f n qc).
+Proof.
+  split; [split; [constructor | intros; reflexivity] |]. intro x. rewrite <- cnt_all. unfold all_slots. cbn [init free ext leaked q_srv q_cli].
+  unfold stream_slots. cbn [init keys flat_map qslots]. rewrite !app_nil_r. reflexivity.
+Qed.
+
+Lemma run_inv n h : forall s, Inv n s -> Inv n (run s h).
+Proof. induction h as [|l t IH]; intros s I; cbn [run]; [exact I | apply IH, step'_inv, I]. Qed.
+
+(* every slot is in exactly one location: the location lists, concatenated, are a permutation of the slots *)
+Theorem inv_thm f n qc h : Permutation (all_slots (run (init f n qc) h)) (iota n).
+Proof. apply inv_perm, run_inv, init_inv. Qed.
+
+Theorem inv_nodup_cover f n qc h :
+  let s := run (init f n qc) h in
+  NoDup (all_slots s) /\ forall x, In x (all_slots s) <-> (0 <= x < Z.of_nat n).
+Proof.
+  intro s. pose proof (inv_thm f n qc h) as P. fold s in P. split.
+  - apply (Permutation_NoDup (Permutation_sym P)), iota_nodup.
+  - intro x. split.
+    + intro H. apply (Permutation_in _ P) in H. unfold iota in H. apply in_map_iff in H. destruct H as [y [E Hy]].
+      apply in_seq in Hy. lia.
+    + intro H. apply (Permutation_in _ (Permutation_sym P)). unfold iota. apply in_map_iff. exists (Z.to_nat x).
+      split; [lia | apply in_seq; lia].
+Qed.
+
+(* ================= quiescence: nothing is lost when every stream is closed ================= *)
+Definition dead_ok (v : stream) : Prop := alive v = false -> sslots v = [].
+Definition Q (f : bool) (s : st) : Prop := fx s = f /\ leaked s = [] /\ forall k, dead_ok (streams s k).
+
+(* the hypothesis under which today's code gives everything back: a stream is closed only when its
+   pinned list is empty (ReleasePreviousRead before Close) - void once recycle() cleans the pinned list *)
+Definition close_guard (s : st) (l : label) : Prop :=
+  match l with
+  | Close e sid => fx s = true \/ pinned (streams s (key e sid)) = []
+  | _ => True
+  end.
+
+Lemma Q_frame f s s' : fx s' = fx s -> leaked s' = leaked s -> streams s' = streams s -> Q f s -> Q f s'.
+Proof. intros A B C (D & E & F). unfold Q. rewrite A, B, C. auto. Qed.
+Lemma Q_set_stream f k nv s : dead_ok nv -> Q f s -> Q f (set_stream k nv s).
+Proof.
+  intros P (D & E & F). split; [exact D | split; [exact E |]]. intro j. cbn [set_stream streams].
+  destruct (Nat.eq_dec j k) as [->|N]; [rewrite updn_eq; exact P | rewrite updn_neq by exact N; apply F].
+Qed.
+Ltac qfr := eapply Q_frame; [reflexivity | reflexivity | reflexivity |].
+Ltac qss := apply Q_set_stream; [let Hx := fresh "Hdead" in intro Hx; cbn [alive] in Hx; try discriminate |].
+
+Lemma sslots_nil v : sslots v = [] -> sendb v = [] /\ rslots (recvb v) = [] /\ pinned v = [] /\ pslots (pend v) = [].
+Proof.
+  unfold sslots. intro H. apply app_eq_nil in H. destruct H as [A H]. apply app_eq_nil in H. destruct H as [B H].
+  apply app_eq_nil in H. tauto.
+Qed.
+
+Lemma Q_deliver_data f e sid p s : Q f s -> Q f (deliver_data e sid p s).
+Proof. intro H. unfold deliver_data. destruct (alive _); [qss | destruct e; [qss | qfr]]; exact H. Qed.
+Lemma Q_deliver_close f e sid s : Q f s -> Q f (deliver_close e sid s).
+Proof. intro H. unfold deliver_close. destruct (alive _); [qss |]; exact H. Qed.
+Lemma Q_deliver f e s q : Q f s -> Q f (deliver e s q).
+Proof. intro H. unfold deliver. destruct (q_closed q); [qfr; apply Q_deliver_close | apply Q_deliver_data]; exact H. Qed.
+Lemma Q_fold_deliver f e q : forall s, Q f s -> Q f (fold_left (deliver e) q s).
+Proof. induction q as [|a q IH]; intros s H; cbn [fold_left]; [exact H | apply IH, Q_deliver, H]. Qed.
+
+Lemma Q_step f s l : close_guard s l -> Q f s -> Q f (step' s l).
+Proof.
+  intros G H. pose proof H as (Hf & Hl & Hd). unfold step'. destruct l; cbn [step].
+  - unfold do_open. destruct (memk _ _); [exact H |]. qss. exact H.
+  - unfold do_write. destruct (alive _) eqn:Ea; cbn [negb]; [| exact H].
+    destruct (_ && _); cbn [negb]; [| exact H]. qss; try (rewrite Ea in Hdead; discriminate). qfr. exact H.
+  - unfold do_flush. set (k := key e sid). set (v := streams s k).
+    destruct (_ <=? 0); [exact H |].
+    assert (P : forall fb, dead_ok (with_send v fb)).
+    { intros fb Ha. cbn [with_send alive] in Ha. destruct (sslots_nil v (Hd k Ha)) as (A & B & C & D).
+      unfold sslots. cbn [with_send sendb recvb pinned pend]. rewrite B, C, D. reflexivity. }
+    assert (S1 : forall fb, Q f (set_stream k (with_send v fb) s)) by (intro fb; apply Q_set_stream; [apply P | exact H]).
+    destruct (is_open v); cbn [negb]; [| qfr; apply S1].
+    destruct (_ || _); [apply Q_deliver_data; qfr; apply S1 |].
+    destruct (_ >=? _); [qfr; qfr; apply S1 | qfr; qfr; apply S1].
+  - apply Q_fold_deliver. qfr. exact H.
+  - unfold do_read. destruct (alive _) eqn:Ea; cbn [negb]; [| exact H].
+    destruct (move_all _) as [[rb fr0] fb]. qfr. qss; try (rewrite Ea in Hdead; discriminate). exact H.
+  - unfold do_release. destruct (alive _) eqn:Ea; cbn [negb]; [| exact H].
+    destruct (recvb _) as [|a [|a' t]]; [| destruct (_ =? 0) |]; qfr; qss; try (rewrite Ea in Hdead; discriminate); exact H.
+  - unfold do_reuse. set (k := key e sid). set (v := streams s k).
+    destruct (is_open v && _ && _ && _) eqn:Er; cbn [negb]; [| exact H].
+    assert (Ea : alive v = true).
+    { unfold is_open in Er. destruct (alive v); [reflexivity | cbn in Er; discriminate]. }
+    destruct (recvb v) as [|a [|a' t]]; [| destruct (rs_slot a) |]; qfr; qss; try (rewrite Ea in Hdead; discriminate); exact H.
+  - unfold do_close. set (k := key e sid). set (v := streams s k). destruct (alive v); cbn [negb]; [| exact H].
+    set (nv := {| alive := false; half := half v; infb := infb v; sendb := []; sheap := false; recvb := []; cpin := false; pinned := []; pend := [] |}).
+    assert (H2 : Q f (add_free (pslots (pend v) ++ rslots (recvb v) ++ sendb v) (set_stream k nv s))).
+    { qfr. apply Q_set_stream; [intros _; reflexivity | exact H]. }
+    assert (H3 : Q f (if fx s then add_free (pinned v) (add_free (pslots (pend v) ++ rslots (recvb v) ++ sendb v) (set_stream k nv s))
+                      else add_leaked (pinned v) (add_free (pslots (pend v) ++ rslots (recvb v) ++ sendb v) (set_stream k nv s)))).
+    { destruct (fx s) eqn:Fx; [qfr; exact H2 |]. cbn [close_guard] in G. destruct G as [G|G]; [congruence |].
+      fold k v in G. rewrite G. destruct H2 as (A & B & C). split; [exact A | split; [| exact C]].
+      cbn [add_leaked leaked]. cbn [add_leaked add_free set_stream leaked] in B. rewrite app_nil_r. exact B. }
+    destruct (half v); [exact H3 |]. destruct (_ >=? _); [apply Q_deliver_close; exact H3 | qfr; exact H3].
+  - unfold do_ext_hold. destruct (_ && _); [qfr |]; exact H.
+  - qfr. exact H.
+  - unfold do_inject. destruct (_ && _); cbn [negb]; [| exact H]. destruct (_ >=? _); [exact H |]. qfr. qfr. exact H.
+Qed.
+
+Fixpoint guarded (G : st -> label -> Prop) (s : st) (h : list label) : Prop :=
+  match h with [] => True | l :: t => G s l /\ guarded G (step' s l) t end.
+
+Lemma Q_run f h : forall s, guarded close_guard s h -> Q f s -> Q f (run s h).
+Proof. induction h as [|l t IH]; intros s G H; cbn [run]; [exact H |]. destruct G as [G1 G2]. apply IH; [exact G2 | apply Q_step; assumption]. Qed.
+
+Lemma Q_init f n qc : Q f (init f n qc).
+Proof. split; [reflexivity | split; [reflexivity | intros k _; reflexivity]]. Qed.
+
+Lemma guarded_fixed h : forall s, Q true s -> guarded close_guard s h.
+Proof.
+  induction h as [|l t IH]; intros s H; cbn [guarded]; [exact I |].
+  assert (G : close_guard s l) by (destruct l; cbn [close_guard]; auto; left; apply H).
+  split; [exact G | apply IH, Q_step; assumption].
+Qed.
+
+(* every stream is closed on both ends, nothing in flight, the application holds nothing *)
+Definition finished (s : st) : Prop :=
+  ext s = [] /\ q_srv s = [] /\ q_cli s = [] /\ forall k, alive (streams s k) = false.
+
+Lemma stream_slots_nil s : (forall k, sslots (streams s k) = []) -> stream_slots s = [].
+Proof. intro H. unfold stream_slots. induction (keys s) as [|a l IH]; cbn [flat_map]; [reflexivity | rewrite H, IH; reflexivity]. Qed.
+
+Lemma finished_all_free f n s : Inv n s -> Q f s -> finished s -> Permutation (free s) (iota n).
+Proof.
+  intros I (Hf & Hl & Hd) (E1 & E2 & E3 & E4). pose proof (inv_perm n s I) as P. unfold all_slots in P.
+  rewrite E1, E2, E3, Hl in P. cbn [qslots flat_map app] in P.
+  rewrite (stream_slots_nil s) in P by (intro k; apply Hd, E4). rewrite app_nil_r in P. exact P.
+Qed.
+
+Definition all_free (n : nat) (s : st) : Prop := Permutation (free s) (iota n) /\ length (free s) = n.
+
+Theorem partial_thm f n qc h :
+  guarded close_guard (init f n qc) h -> finished (run (init f n qc) h) -> all_free n (run (init f n qc) h).
+Proof.
+  intros G F. assert (P : Permutation (free (run (init f n qc) h)) (iota n)).
+  { eapply finished_all_free; [apply run_inv, init_inv | apply Q_run; [exact G | apply Q_init] | exact F]. }
+  split; [exact P |]. rewrite (Permutation_length P). unfold iota. rewrite map_length, seq_length. reflexivity.
+Qed.
+
+Theorem fixed_thm n qc h : finished (run (init true n qc) h) -> all_free n (run (init true n qc) h).
+Proof. intro F. apply partial_thm; [apply guarded_fixed, Q_init | exact F]. Qed.
+
+(* ---- refutation of the full statement on today's code: the pinned-at-Close history ---- *)
+Definition full_stmt : Prop :=
+  forall n qc h, finished (run (init false n qc) h) -> all_free n (run (init false n qc) h).
+
+(* client writes two slices' worth and flushes; the server reads a little (fast path: front slice
+   pinned), reads across the slice boundary (the first slice is parked in pinnedList), closes without
+   ReleasePreviousRead; the client closes *)
+Definition witness_pinned : list label :=
+  [Open 1%nat; Write false 1%nat [0; 1] false; Flush false 1%nat [4096; 1904] 1%nat; Poll true;
+   Read true 1%nat RBytes 100; Read true 1%nat RBytes 5000; Close true 1%nat; Poll false; Close false 1%nat; Poll true].
+
+Lemma full_refuted : ~ full_stmt.
+Proof.
+  intro H. specialize (H 4%nat 8 witness_pinned).
+  assert (F : finished (run (init false 4 8) witness_pinned)).
+  { unfold finished. repeat split; try (vm_compute; reflexivity).
+    intro k. destruct (Nat.eq_dec k 2) as [->|N2]; [vm_compute; reflexivity |].
+    destruct (Nat.eq_dec k 3) as [->|N3]; [vm_compute; reflexivity |].
+    assert (E : streams (run (init false 4 8) witness_pinned) k = dead_stream).
+    { apply (proj2 (proj1 (run_inv 4 witness_pinned _ (init_inv false 4 8)))).
+      assert (Ek : keys (run (init false 4 8) witness_pinned) = [2; 3]%nat) by (vm_compute; reflexivity).
+      rewrite Ek. cbn. intuition congruence. }
+    rewrite E. reflexivity. }
+  destruct (H F) as [_ L]. vm_compute in L. discriminate.
+Qed.
+
+Lemma witness_fixed_ok : length (free (run (init true 4 8) witness_pinned)) = 4%nat /\ leaked (run (init false 4 8) witness_pinned) = [0].
+Proof. vm_compute. split; reflexivity. Qed.
